@@ -133,3 +133,76 @@ def o12_3(tier):
         return h
     return [("no-guess", mk([], False)), ("guess-3->17", mk([(3, 17)], False)), ("guess-3->0,vertex-id-0", mk([(3, 0)], False, True)), ("no-guess,vertex-id-0", mk([], False, True)),
             ("no-guess,later-frame-reuses-the-numbers", mk([], False, shared_ids=True))]
+
+
+@obligation("O12.4", ["C12", "C03", "C13"], [TS + "__post_init__", TS + "create_mapping"],
+            "TimeSeries constructor on three frames numbered independently (scenario with concrete positions, find_best by contract): step k maps exactly "
+            "the interface end points of frame k to their partners in frame k+1 - every step has its own table, no entry of another step leaks into it, "
+            "and the caller's initial_guess dictionaries are not written to", tier="Pn")
+def o12_4(tier):
+    def h(ctx):
+        T = cls(ctx, "forsys.time_series", "TimeSeries")
+        F = cls(ctx, "forsys.frames", "Frame")
+        ctx.real("unused")
+        ends = [[3, 8, 5], [12, 17, 11], [21, 22, 23]]
+        mids = [[40, 41], [50, 51], [60, 61]]
+        pos = [(0.0, 0.0), (4.0, 0.5), (8.0, 0.0)]
+        frames = []
+        for k in range(3):
+            ids = ends[k] + mids[k]
+            coords = [(pos[i][0] + 0.01 * k, pos[i][1] + 0.02 * k) for i in range(3)] + [(2.0, 1.0 + 0.01 * k), (6.0, 1.0 + 0.01 * k)]
+            vs = mk_vertices(ctx, coords, ids=ids)
+            bel = [[ends[k][0], mids[k][0], ends[k][1]], [ends[k][1], mids[k][1], ends[k][2]]]
+            frames.append(ctx.alloc(F, vertices=ctx.dict(list(zip(ids, vs))), big_edges_list=bel, border_vertices=[], cells=ctx.dict(), time=float(k)))
+        partner = {3: 12, 8: 17, 5: 11, 12: 21, 17: 22, 11: 23}
+
+        def fb(it, a, k):
+            v0, pool = a[1], a[2]
+            want = partner[ctx.get(v0, "id")]
+            return ctx.item(pool, want) if want in ctx.keys(pool) else None
+        ctx.stub(TS + "find_best", fb, "callee contract proved as O12.1 (here: the nearest free vertex of the scenario)")
+        if ctx.mode != "sym":
+            ctx.apply_stubs = True
+            ctx.stub(TS + "find_best", fb)
+        guess = ctx.dict([(0, ctx.dict()), (1, ctx.dict()), (2, ctx.dict())])
+        ts = ctx.call(T, ctx.dict([(0, frames[0]), (1, frames[1]), (2, frames[2])]), False, guess)
+        mp = ctx.get(ts, "mapping")
+        ctx.ensure(sorted(ctx.keys(mp)) == [0, 1], "one table per pair of consecutive frames")
+        for k in (0, 1):
+            table = dict(ctx.list_of(ctx.item(mp, k)))
+            ctx.ensure(table == {e: partner[e] for e in ends[k]}, f"step {k}: exactly the end points of frame {k}, each sent to its partner in frame {k + 1}")
+        ctx.ensure(ctx.item(mp, 0) is not ctx.item(mp, 1), "the two steps do not share one table")
+        ctx.ensure(all(len(ctx.list_of(g)) == 0 for _, g in ctx.list_of(guess)), "the caller's (empty) initial guesses are left empty")
+
+    def h_default(ctx):
+        # the same with the default initial_guess built by the constructor itself
+        T = cls(ctx, "forsys.time_series", "TimeSeries")
+        F = cls(ctx, "forsys.frames", "Frame")
+        ctx.real("unused")
+        ends = [[3, 8, 5], [12, 17, 11], [21, 22, 23]]
+        mids = [[40, 41], [50, 51], [60, 61]]
+        pos = [(0.0, 0.0), (4.0, 0.5), (8.0, 0.0)]
+        frames = []
+        for k in range(3):
+            ids = ends[k] + mids[k]
+            coords = [(pos[i][0] + 0.01 * k, pos[i][1] + 0.02 * k) for i in range(3)] + [(2.0, 1.0 + 0.01 * k), (6.0, 1.0 + 0.01 * k)]
+            vs = mk_vertices(ctx, coords, ids=ids)
+            bel = [[ends[k][0], mids[k][0], ends[k][1]], [ends[k][1], mids[k][1], ends[k][2]]]
+            frames.append(ctx.alloc(F, vertices=ctx.dict(list(zip(ids, vs))), big_edges_list=bel, border_vertices=[], cells=ctx.dict(), time=float(k)))
+        partner = {3: 12, 8: 17, 5: 11, 12: 21, 17: 22, 11: 23}
+
+        def fb(it, a, k):
+            v0, pool = a[1], a[2]
+            want = partner[ctx.get(v0, "id")]
+            return ctx.item(pool, want) if want in ctx.keys(pool) else None
+        ctx.stub(TS + "find_best", fb, "callee contract proved as O12.1 (here: the nearest free vertex of the scenario)")
+        if ctx.mode != "sym":
+            ctx.apply_stubs = True
+            ctx.stub(TS + "find_best", fb)
+        ts = ctx.call(T, ctx.dict([(0, frames[0]), (1, frames[1]), (2, frames[2])]), False)
+        mp = ctx.get(ts, "mapping")
+        for k in (0, 1):
+            table = dict(ctx.list_of(ctx.item(mp, k)))
+            ctx.ensure(table == {e: partner[e] for e in ends[k]}, f"default guess, step {k}: exactly the end points of frame {k}, each sent to its partner in frame {k + 1}")
+        ctx.ensure(ctx.item(mp, 0) is not ctx.item(mp, 1), "default guess: the two steps do not share one table")
+    return [("three-frames,explicit-empty-guess", h), ("three-frames,default-guess", h_default)]
